@@ -29,8 +29,10 @@ def legal(history):
     connected = False
     for a in history:
         if a in ("connect", "refused", "ctx_ok", "ctx_exc"):
-            if connected:
+            if connected and a == "refused":
                 return False
+            # connect or async-with on a client that is already connected is an input like any other: afterwards the
+            # flag and the socket of the *current* session are judged as usual (what happens to the earlier socket is not)
             connected = a == "connect"
         elif a in ("op_ok", "op_raise", "drop"):
             if not connected:
